@@ -146,6 +146,7 @@ type c17Snapshot struct {
 }
 
 type c17Case struct {
+	manyVersions bool // long-lived derived key (10+ versions, digit-prefixed contexts); no injected faults in these cases
 	rec         *verifx.Recorder
 	lm          *LockManager
 	st          logical.Storage
@@ -707,6 +708,9 @@ func (c *c17Case) actEncrypt(t *rapid.T, explicit bool) {
 	ver := 0
 	if explicit {
 		ver = rapid.IntRange(-1, m.latest+1).Draw(t, "keyVersion")
+		if c.manyVersions && rapid.Bool().Draw(t, "lowOrTenth") {
+			ver = []int{1, 10, 1, 11, 2}[rapid.IntRange(0, 4).Draw(t, "whichLowOrTenth")]
+		}
 	}
 	ctx := c.drawCtx(t)
 	ad := c.drawAD(t)
@@ -831,6 +835,19 @@ func (c *c17Case) encrypt(t *rapid.T, ver int, ctx, ad, pt, nonce []byte, keep b
 		}
 		if back != b64(pt) {
 			c.viol(t, "decrypt-wrong-plaintext", "decrypting a ciphertext just produced returned %s, plaintext was %s", verifx.Trunc(back, 40), verifx.Trunc(b64(pt), 40))
+		}
+		if c.manyVersions && derr2 == nil {
+			// second opinion: a lock manager without a cache loads the stored policy and must read the ciphertext as well
+			// (what every other node, and this node after its next restart, will do)
+			if lm2, err := NewLockManager(false, 0); err == nil {
+				if p2, _, err := lm2.GetPolicy(c17Ctx, PolicyRequest{Storage: c.inner, Name: c17Name}, rand.Reader); err == nil && p2 != nil {
+					back2, err2 := p2.DecryptWithFactory(ctx, nil, ct, c17Factories(ad)...)
+					p2.Unlock()
+					if err2 != nil || back2 != b64(pt) {
+						c.viol(t, "ciphertext-unreadable-for-a-freshly-loaded-policy", "a version %d ciphertext just produced with context %x decrypts on the policy object that made it, but the same policy loaded from storage by another lock manager answers %v / %s", want, ctx, err2, verifx.Trunc(back2, 40))
+					}
+				}
+			}
 		}
 		if keep {
 			c.entries = append(c.entries, e)
@@ -1616,6 +1633,9 @@ var (
 
 // actFault: one generated mutating operation with one generated write failure.
 func (c *c17Case) actFault(t *rapid.T) {
+	if c.manyVersions {
+		t.Skip("no faults in long-lived-key cases")
+	}
 	op := c17Slot(t, "faultOp", []string{"rotate", "rotate", "config", "config", "trim", "trim", "restore", "restore"})
 	if op == "trim" && c.m.minEnc == 0 {
 		op = "config"
@@ -1645,6 +1665,9 @@ func (c *c17Case) actFault(t *rapid.T) {
 // the new version, one more rotation, min_decryption_version raised above that version and lowered again, a
 // reload, and then the material must still decrypt / verify.
 func (c *c17Case) actFaultCycle(t *rapid.T) {
+	if c.manyVersions {
+		t.Skip("no faults in long-lived-key cases")
+	}
 	if c.kind.rsaBits > 0 && c.m.latest >= c.rsaCap {
 		c.actConfig(t)
 		return
@@ -1836,6 +1859,15 @@ func TestVerif_C17_Policy(t *testing.T) {
 				}
 			}
 		}
+		// One derived key in five lives long: it is rotated past version 10 right after creation, and its contexts are
+		// X, "0"+X and "1"+X - so that (version 1, "0"+X) and (version 10, X), or (1, "1"+X) and (11, X), read the same
+		// when version and context are merely written one after the other.
+		manyVersions := c.derived && c.kind.rsaBits == 0 && rapid.IntRange(0, 4).Draw(rt, "manyVersions") == 0
+		c.manyVersions = manyVersions
+		if manyVersions {
+			x := c.ctxPool[0]
+			c.ctxPool = [][]byte{x, append([]byte("0"), x...), append([]byte("1"), x...)}
+		}
 		c.adPool = [][]byte{c17Bytes(rt, "ad", 1, 12), c17Bytes(rt, "ad", 1, 40)}
 		c.ptPool = [][]byte{c17Bytes(rt, "pt", 1, 24), c17Bytes(rt, "pt", 1, 24), c17Bytes(rt, "pt", 0, 40)}
 
@@ -1863,6 +1895,21 @@ func TestVerif_C17_Policy(t *testing.T) {
 		}
 		c.m.fps[1] = c17FP(p.Keys["1"])
 		p.Unlock()
+		if manyVersions {
+			for n := rapid.IntRange(9, 11).Draw(rt, "earlyRotations"); n > 0 && !c.dead; n-- {
+				c.actRotate(rt)
+			}
+			rec.Class("key-with-10+-versions", 1)
+			if c.kind.enc && !c.dead && c.m.latest >= 10 {
+				// the two uses whose (version, context) pairs read the same when written one after the other
+				pt := c.ptPool[0]
+				c.step("encrypt(ver=1,ctx=%x) then encrypt(ver=10,ctx=%x)", c.ctxPool[1], c.ctxPool[0])
+				c.encrypt(rt, 1, c.ctxPool[1], nil, pt, nil, true)
+				if !c.dead {
+					c.encrypt(rt, 10, c.ctxPool[0], nil, pt, nil, true)
+				}
+			}
+		}
 
 		rt.Repeat(map[string]func(*rapid.T){"": c.guard(c.check), "step": c.guard(c.stepAction)})
 		if c.dead {
